@@ -21,7 +21,7 @@ Blank == [ev |-> "", data |-> <<>>, rdata |-> <<>>, rflag |-> FALSE, rerr |-> ""
 Stimuli ==
     {[Blank EXCEPT !.ev = "feed", !.data = d] : d \in Feeds}
       \cup {[Blank EXCEPT !.ev = x] : x \in {"eof", "setexc"}}
-      \cup (IF WithChunks THEN {[Blank EXCEPT !.ev = x] : x \in {"begin", "end"}} ELSE {})
+      \cup (IF WithChunks THEN {[Blank EXCEPT !.ev = x] : x \in {"begin", "end", "endexc"}} ELSE {})
       \cup (IF WithUnread THEN {[Blank EXCEPT !.ev = "unread", !.data = <<120>>]} ELSE {})
       \cup {[Blank EXCEPT !.ev = "call", !.op = c.op, !.n = c.n] : c \in Calls}
 
@@ -30,10 +30,11 @@ BlankEv == [Blank EXCEPT !.ev = "init"]
 Init == s = Init0(Limit) /\ last = BlankEv /\ selfok = TRUE
 
 Stimulate(e) ==
+    /\ ~s.desync            \* the reference judges nothing after a LineTooLong error
     /\ Legal(s, e)
     /\ e.ev = "feed" => s.fed + Len(e.data) <= MaxFed
     /\ e.ev = "unread" => Len(s.pend) < MaxFed /\ s.cursor > 0
-    /\ e.ev = "end" => Cardinality(s.ends) < 4
+    /\ e.ev \in {"end", "endexc"} => Cardinality(s.ends) < 4
     /\ LET s1 == Stim(s, e)
            pr == Progress(s1)
            full == IF pr.r.done
@@ -42,9 +43,10 @@ Stimulate(e) ==
            a == Apply(s, full)
        IN /\ s' = pr.s
           /\ last' = full
-          /\ selfok' = IF (a.bad = "" /\ a.drift = "" /\ a.s = pr.s) THEN TRUE ELSE <<a.bad, a.drift, a.s>>
+          /\ selfok' = (a.bad = "" /\ a.drift = "" /\ a.s = pr.s)
 
 NoWait(n) ==
+    /\ ~s.desync
     /\ s.op = "none"
     /\ LET avail == Len(s.pend)
            kk == IF n < 0 THEN avail ELSE Min(n, avail)
